@@ -68,7 +68,11 @@ func c17IncNeedsQuote(p string) bool {
 
 func c17IncGenFile(t *rapid.T, id int, rel, root string, canary bool, hasAbsOutside bool) *c17IncFile {
 	f := &c17IncFile{ID: id, Rel: rel, Abs: filepath.Join(root, rel), Canary: canary}
-	var parts []string
+	type part struct {
+		text string
+		inc  []string
+	}
+	var parts []part
 	nsec := rapid.IntRange(0, 3).Draw(t, "nsec")
 	if canary {
 		nsec = rapid.IntRange(1, 2).Draw(t, "ncsec")
@@ -95,7 +99,7 @@ func c17IncGenFile(t *rapid.T, id int, rel, root string, canary bool, hasAbsOuts
 			}
 		}
 		f.Secs = append(f.Secs, sec)
-		parts = append(parts, sec.Name+" {\n  "+strings.Join(sec.Src, "\n  ")+"\n}")
+		parts = append(parts, part{text: sec.Name + " {\n  " + strings.Join(sec.Src, "\n  ") + "\n}"})
 	}
 	// include sections (0-2), each with 0-3 patterns
 	ninc := rapid.SampledFrom([]int{0, 1, 1, 1, 2}).Draw(t, "ninc")
@@ -104,7 +108,7 @@ func c17IncGenFile(t *rapid.T, id int, rel, root string, canary bool, hasAbsOuts
 	}
 	for k := 0; k < ninc; k++ {
 		np := rapid.IntRange(0, 3).Draw(t, "npat")
-		var lines []string
+		var lines, pats []string
 		for i := 0; i < np; i++ {
 			p := rapid.SampledFrom(c17IncRelPatterns).Draw(t, "pattern")
 			if rapid.IntRange(0, 4).Draw(t, "absolute") == 0 {
@@ -115,7 +119,7 @@ func c17IncGenFile(t *rapid.T, id int, rel, root string, canary bool, hasAbsOuts
 					p = filepath.Join(root, "outside", "o.dae")
 				}
 			}
-			f.Includes = append(f.Includes, p)
+			pats = append(pats, p)
 			if c17IncNeedsQuote(p) || rapid.IntRange(0, 3).Draw(t, "quote") == 0 {
 				lines = append(lines, "'"+p+"'")
 			} else {
@@ -124,9 +128,15 @@ func c17IncGenFile(t *rapid.T, id int, rel, root string, canary bool, hasAbsOuts
 		}
 		inc := "include {\n  " + strings.Join(lines, "\n  ") + "\n}"
 		pos := rapid.IntRange(0, len(parts)).Draw(t, "incpos")
-		parts = append(parts[:pos], append([]string{inc}, parts[pos:]...)...)
+		parts = append(parts[:pos], append([]part{{text: inc, inc: pats}}, parts[pos:]...)...)
 	}
-	f.Text = "# file " + rel + "\n" + strings.Join(parts, "\n") + "\n"
+	// the include patterns in the order in which they stand in the file
+	texts := make([]string, 0, len(parts))
+	for _, pt := range parts {
+		texts = append(texts, pt.text)
+		f.Includes = append(f.Includes, pt.inc...)
+	}
+	f.Text = "# file " + rel + "\n" + strings.Join(texts, "\n") + "\n"
 	if canary && rapid.IntRange(0, 2).Draw(t, "broken") == 0 {
 		f.Broken = true
 		f.Text += "CANARYBROKEN" + fmt.Sprint(id) + " { { : -> \n"
